@@ -66,7 +66,7 @@ def handle : List String → String
     | some cap, some cps =>
       let plans : List (List Phase) := cps.map (·.2)
       let F : Nat → Plan := fun i p => (plans.getD i []).contains p
-      let r := run codeSync2 cap F 0 init (cps.map (·.1))
+      let r := run codeSync2 codeFixes cap F 0 init (cps.map (·.1))
       (if r.2.isEmpty then "-" else ",".intercalate (r.2.map showRes)) ++ "|" ++
         showNatList (content r.1.metaSegs) ++ "|" ++ showBool (stale r.1) ++ "|" ++
         showNatList (content r.1.searcher)
